@@ -949,9 +949,144 @@ theorem C03_deleted_stays_empty (hv : g.Valid) :
     obtain ⟨_, p', hp', hd'⟩ := C03_deleted_never_allocates g H NoDisc s hinv hdel st i q hq (hnone i q hq)
     rw [hp] at hp'; cases hp'; exact hd'
 
+/-! ### notifications: every complete piece a pass discards is reported exactly once -/
+
+/-- the history of one `Pieces.Expire` pass: its own visits, interleaved with arbitrary steps
+    of other goroutines (AddData, Finalise, other passes' evictions, Del, reads …) -/
+inductive PassEv
+  | other (st : Step)
+  | visit (i : Nat)
+
+structure PassLog where
+  s : State
+  l : ExpLocal
+  cbs : List Nat    -- the callbacks `f(index)` the pass made, in order (what the code does)
+  lost : List Nat   -- ghost: the visits that turned a complete piece holding a buffer into an
+                    -- empty one (what actually happened to the store)
+
+/-- a visit is taken only while the loop is still running (`todo > 0`, pieces left) and on
+    a piece not yet visited; otherwise the event is not a step of this pass -/
+def passRun (H : Bytes → Bytes) (g : Geom) : State → ExpLocal → List PassEv → PassLog
+  | s, l, [] => ⟨s, l, [], []⟩
+  | s, l, .other st :: r => passRun H g (Piece.step H g s st).1 l r
+  | s, l, .visit i :: r =>
+    if expMore l && l.rest.contains i then
+      let v := expVisit g s l i
+      let was : Bool := match s.pieces[i]? with
+        | some p => decide (p.state = .complete) && p.data.isSome
+        | none => false
+      let gone : Bool := match v.1.pieces[i]? with
+        | some p' => p'.data.isNone
+        | none => false
+      let rec' := passRun H g v.1 v.2.1 r
+      ⟨rec'.s, rec'.l, (if v.2.2.1 then [i] else []) ++ rec'.cbs,
+        (if was && gone then [i] else []) ++ rec'.lost⟩
+    else passRun H g s l r
+
+/-- one visit: the callback fires iff the visit discarded a complete piece -/
+theorem visit_cb_iff (s : State) (hinv : Inv g H NoDisc s) (l : ExpLocal) (i : Nat) :
+    (expVisit g s l i).2.2.1 =
+      ((match s.pieces[i]? with
+        | some p => decide (p.state = .complete) && p.data.isSome
+        | none => false) &&
+       (match (expVisit g s l i).1.pieces[i]? with
+        | some p' => p'.data.isNone
+        | none => false)) ∧
+    (expVisit g s l i).1 = (del s i false).1 ∧ (expVisit g s l i).2.1.rest = l.rest.erase i := by
+  have h23 : (expVisit g s l i).1 = (del s i false).1 ∧
+      (expVisit g s l i).2.1.rest = l.rest.erase i := by
+    unfold expVisit
+    dsimp only
+    split <;> exact ⟨rfl, rfl⟩
+  refine ⟨?_, h23.1, h23.2⟩
+  rw [h23.1]
+  cases hp : s.pieces[i]? with
+  | none =>
+    have hs : del s i false = (s, .panic "index out of range") := by unfold del; simp [hp]
+    unfold expVisit
+    simp [hs]
+  | some p =>
+    simp only
+    rcases del_self g H NoDisc s hinv i p hp with ⟨c, b, hobs, _, p', hp', hd'⟩ | ⟨hnot, hsame, hwhy⟩
+    · -- evicted: `complete` is what `del` sampled
+      obtain ⟨q, q', hq, _, hqd, _, hc, _, _, _⟩ := (C03_evict_step s i false).2.2.2 c b hobs
+      rw [hp] at hq; cases hq
+      have hsplit : del s i false = ((del s i false).1, .del true c b) := by rw [← hobs]
+      have hcb : (expVisit g s l i).2.2.1 = c := by
+        unfold expVisit; rw [hsplit]
+      rw [hcb, hp', hc]
+      simp only [hd']
+      cases hdat : p.data with
+      | none => exact absurd hdat hqd
+      | some bd => simp
+    · -- left alone: no callback, and nothing was lost
+      have hcb : (expVisit g s l i).2.2.1 = false := by
+        unfold expVisit
+        dsimp only
+        split
+        · rename_i c b heq; exact absurd heq (hnot c b)
+        · rfl
+      rw [hcb, hsame, hp]
+      rcases hwhy with hw | hw
+      · simp [hw]
+      · simp [hw]
+
+/-- **`C03_discard_notified_once`**: in EVERY interleaving of a pass with arbitrary other
+    steps, the callbacks the pass makes are exactly (same pieces, same order) the visits that
+    discarded a complete piece — so there is one for every complete piece it discards and none
+    for an incomplete, busy or empty one — and no piece is reported twice. -/
+theorem C03_discard_notified_once (hv : g.Valid) :
+    ∀ (tr : List PassEv) (s : State) (l : ExpLocal), Inv g H NoDisc s → l.rest.Nodup →
+      (passRun H g s l tr).cbs = (passRun H g s l tr).lost ∧
+      (passRun H g s l tr).cbs.Nodup ∧ ∀ i, i ∈ (passRun H g s l tr).cbs → i ∈ l.rest := by
+  intro tr
+  induction tr with
+  | nil => intro s l _ _; exact ⟨rfl, List.nodup_nil, fun i h => by cases h⟩
+  | cons e tr ih =>
+    intro s l hinv hnd
+    cases e with
+    | other st =>
+      exact ih _ l (inv_step g H _ hv s st (noDisc_good st) hinv) hnd
+    | visit i =>
+      unfold passRun
+      by_cases hen : (expMore l && l.rest.contains i) = true
+      · rw [if_pos hen]
+        obtain ⟨hcb, hst, hrest⟩ := visit_cb_iff g H s hinv l i
+        have hinv' : Inv g H NoDisc (expVisit g s l i).1 := by
+          rw [hst]; exact inv_del g H _ s i false hinv
+        have hnd' : (expVisit g s l i).2.1.rest.Nodup := by
+          rw [hrest]; exact hnd.erase i
+        obtain ⟨h1, h2, h3⟩ := ih _ _ hinv' hnd'
+        have hmem : i ∈ l.rest := by
+          simp only [Bool.and_eq_true, List.contains_iff_mem] at hen
+          exact hen.2
+        simp only
+        refine ⟨?_, ?_, ?_⟩
+        · rw [← hcb, h1]
+        · cases hv' : (expVisit g s l i).2.2.1 with
+          | false => simpa using h2
+          | true =>
+            simp only [if_true, List.singleton_append, List.nodup_cons]
+            refine ⟨?_, h2⟩
+            intro hin
+            have := h3 i hin
+            rw [hrest] at this
+            exact (List.Nodup.mem_erase_iff hnd).mp this |>.1 rfl
+        · intro j hj
+          rcases List.mem_append.mp hj with hj | hj
+          · split at hj
+            · simp at hj; rw [hj]; exact hmem
+            · cases hj
+          · have := h3 j hj
+            rw [hrest] at this
+            exact List.mem_of_mem_erase this
+      · rw [if_neg hen]
+        exact ih s l hinv hnd
+
 /-! ### the code as found: the two `Pieces.Del` defects, on concrete witnesses -/
 
 def gW : Geom := { ps := 2, length := 4, cs := 2 }
+def gW3 : Geom := { ps := 2, length := 6, cs := 2 }
 def HW : Bytes → Bytes := fun _ => []
 
 /-- as found, `Pieces.Del` latched `deleted` AFTER the loop -/
@@ -1073,7 +1208,300 @@ theorem C03_policy_selection (mark space : Int) (cnt : Nat) (b1 b2 : List Int) (
     intro i
     simp [List.mem_filter, List.mem_range]
 
+/-! ### `tor.Expire` end to end: fairness and "evictable to the low mark" -/
+
+theorem foldl_add_init (l : List Int) (a : Int) :
+    l.foldl (fun x y => x + y) a = a + l.foldl (fun x y => x + y) 0 := by
+  induction l generalizing a with
+  | nil => simp
+  | cons x xs ih => rw [List.foldl_cons, List.foldl_cons, ih (a + x), ih (0 + x)]; omega
+
+theorem isum_cons (x : Int) (l : List Int) :
+    (x :: l).foldl (fun a b => a + b) 0 = x + l.foldl (fun a b => a + b) 0 := by
+  rw [List.foldl_cons, foldl_add_init]; omega
+
+/-- what `policy … = .evict f sel` says about `f` -/
+theorem policy_evict_spec (mark space : Int) (cnt : Nat) (b1 b2 : List Int) (f : Int)
+    (sel : List Nat) (h : policy true mark space cnt b1 b2 = .evict f sel) :
+    cnt ≠ 0 ∧ b1.length - (b1.filter (· ≤ Int.tdiv (Int.tdiv (mark * 7) 8) cnt)).length ≠ 0 ∧
+    f = Int.tdiv (Int.tdiv (mark * 7) 8 -
+          (b1.filter (· ≤ Int.tdiv (Int.tdiv (mark * 7) 8) cnt)).foldl (fun a b => a + b) 0)
+        ((b1.length - (b1.filter (· ≤ Int.tdiv (Int.tdiv (mark * 7) 8) cnt)).length : Nat) : Int) := by
+  unfold policy at h
+  simp only at h
+  by_cases h1 : space < Int.tdiv (Int.tdiv (mark * 7) 8 + mark) 2
+  · simp [h1] at h
+  by_cases h2 : space < mark
+  · simp [h1, h2] at h
+  by_cases h3 : cnt = 0
+  · simp [h1, h2, h3] at h
+  by_cases h4 : b1.length - (b1.filter (· ≤ Int.tdiv (Int.tdiv (mark * 7) 8) cnt)).length = 0
+  · simp [h1, h2, h3, h4] at h
+  · simp only [h1, h2, h3, h4, if_false, Policy.evict.injEq] at h
+    exact ⟨h3, h4, h.1.symm⟩
+
+/-- the arithmetic core, over plain integers: `L` = low mark ≥ 0, `n` = number of torrents,
+    `fair = L / n`; the small torrents (≤ fair) total `S ≤ k·fair`; `B = n - k > 0` big ones.
+    Then `fair ≤ (L - S) / B` and `B · ((L - S) / B) ≤ L - S`. -/
+theorem fair_arith (L S fair : Int) (n k : Nat) (hL : 0 ≤ L) (hn : 0 < n) (hk : k < n)
+    (hfair : fair = L / (n : Int)) (hS : S ≤ (k : Int) * fair) :
+    0 ≤ L - S ∧ fair ≤ (L - S) / ((n - k : Nat) : Int) ∧
+    ((n - k : Nat) : Int) * ((L - S) / ((n - k : Nat) : Int)) ≤ L - S := by
+  have hnpos : (0 : Int) < (n : Int) := by omega
+  have hf0 : 0 ≤ fair := by rw [hfair]; exact Int.ediv_nonneg hL (by omega)
+  have hfn : fair * (n : Int) ≤ L := by rw [hfair]; exact Int.ediv_mul_le L (by omega)
+  have hB : ((n - k : Nat) : Int) = (n : Int) - (k : Int) := by omega
+  have hBpos : (0 : Int) < ((n - k : Nat) : Int) := by omega
+  have hkf : (k : Int) * fair ≤ (n : Int) * fair :=
+    Int.mul_le_mul_of_nonneg_right (by omega) hf0
+  have hmul : fair * ((n - k : Nat) : Int) ≤ L - S := by
+    rw [hB, Int.mul_sub, Int.mul_comm fair (k : Int)]
+    omega
+  have hnn : 0 ≤ L - S := by
+    rw [Int.mul_comm] at hfn
+    omega
+  refine ⟨hnn, (Int.le_ediv_iff_mul_le hBpos).mpr hmul, ?_⟩
+  rw [Int.mul_comm]
+  exact Int.ediv_mul_le _ (by omega)
+
+theorem filter_sum_le (l : List Int) (fair : Int) :
+    (l.filter (· ≤ fair)).foldl (fun a b => a + b) 0 ≤ ((l.filter (· ≤ fair)).length : Int) * fair := by
+  induction l with
+  | nil => simp
+  | cons x xs ih =>
+    by_cases hx : x ≤ fair
+    · have : (x :: xs).filter (· ≤ fair) = x :: xs.filter (· ≤ fair) := by simp [hx]
+      rw [this, isum_cons, List.length_cons, Int.natCast_succ, Int.add_mul]
+      omega
+    · have : (x :: xs).filter (· ≤ fair) = xs.filter (· ≤ fair) := by simp [hx]
+      rw [this]; exact ih
+
+/-- **fairness** (`fair2 ≥ fair`): with a memory mark ≥ 0 and a consistent walk (the table
+    has as many torrents as were counted), the second fair share is at least the first, so a
+    torrent at or below its fair share is never selected for eviction. -/
+theorem C03_policy_fair (mark space : Int) (b1 b2 : List Int) (f : Int) (sel : List Nat)
+    (hmark : 0 ≤ mark) (h : policy true mark space b1.length b1 b2 = .evict f sel) :
+    Int.tdiv (Int.tdiv (mark * 7) 8) b1.length ≤ f := by
+  obtain ⟨hc, hB, hf⟩ := policy_evict_spec mark space b1.length b1 b2 f sel h
+  have hL : 0 ≤ Int.tdiv (mark * 7) 8 := by
+    rw [Int.tdiv_eq_ediv_of_nonneg (by omega)]; exact Int.ediv_nonneg (by omega) (by omega)
+  generalize hLd : Int.tdiv (mark * 7) 8 = L at *
+  have hfair : Int.tdiv L b1.length = L / (b1.length : Int) := Int.tdiv_eq_ediv_of_nonneg hL
+  generalize hfd : Int.tdiv L b1.length = fair at *
+  have hlen : (b1.filter (· ≤ fair)).length ≤ b1.length := List.length_filter_le _ _
+  have hS := filter_sum_le b1 fair
+  obtain ⟨hnn, hle, _⟩ := fair_arith L _ fair b1.length (b1.filter (· ≤ fair)).length hL
+    (by omega) (by omega) hfair hS
+  rw [hf, Int.tdiv_eq_ediv_of_nonneg hnn]
+  exact hle
+
+theorem held_le_bytesOf (Good : Nat → Bytes → Prop) (hv : g.Valid) (s : State)
+    (hinv : Inv g H Good s) : (held g s : Int) ≤ bytesOf g s := by
+  unfold bytesOf
+  rw [hinv.count]
+  have hle : ∀ (k : Nat) (ps : List Piece), heldFrom g k ps ≤ holding ps * g.ps := by
+    intro k ps
+    induction ps generalizing k with
+    | nil => simp [heldFrom, holding]
+    | cons x xs ih =>
+      have := ih (k + 1)
+      have hpl := pieceLength_le g k hv.ps
+      simp only [heldFrom, holding, List.countP_cons] at this ⊢
+      split <;> simp_all [Nat.add_mul] <;> omega
+  have := hle 0 s.pieces
+  unfold held
+  exact_mod_cast this
+
+theorem expRun_todo_le : ∀ (order : List Nat) (s : State) (todo : Int),
+    (expRun g s todo order).2 ≤ todo := by
+  intro order
+  induction order with
+  | nil => intro s todo; exact Int.le_refl _
+  | cons i rest ih =>
+    intro s todo
+    unfold expRun
+    by_cases hle : todo ≤ 0
+    · rw [if_pos hle]; exact Int.le_refl _
+    rw [if_neg hle]
+    split
+    · have := ih ‹State› (todo - g.ps); omega
+    · exact ih _ _
+
+abbrev bytesE (e : Geom × State) : Int := bytesOf e.1 e.2
+
+/-- what `tor.Expire` does to one torrent once `fair2` is known: a complete pass of
+    `Pieces.Expire(fair2, available, …)` if `Bytes() > fair2` (the visiting order `ord e`
+    stands for whatever the availability answers and the random tie-break produce) -/
+def passOne (f : Int) (ord : Geom × State → List Nat) (e : Geom × State) : Geom × State :=
+  if bytesE e > f then (e.1, (expRun e.1 e.2 (bytesE e - f) (ord e)).1) else e
+
+theorem passOne_spec (Good : Nat → Bytes → Prop) (f : Int) (ord : Geom × State → List Nat)
+    (e : Geom × State) (hv : e.1.Valid) (hinv : Inv e.1 H Good e.2)
+    (hord : ∀ i, i < e.2.pieces.length → i ∈ ord e) :
+    (passOne f ord e).1 = e.1 ∧ Inv e.1 H Good (passOne f ord e).2 ∧
+    bytesE (passOne f ord e) ≤ bytesE e ∧
+    (bytesE e > f → bytesE (passOne f ord e) ≤ f ∨
+      ∀ (i : Nat) (p : Piece), (passOne f ord e).2.pieces[i]? = some p → p.data ≠ none →
+        p.state = .busy) := by
+  unfold passOne
+  by_cases hb : bytesE e > f
+  · rw [if_pos hb]
+    obtain ⟨h1, h2, h3⟩ := C03_expire_target e.1 H Good f (ord e) e.2 (bytesE e - f) hinv rfl
+    have h4 := expRun_todo_le e.1 (ord e) e.2 (bytesE e - f)
+    refine ⟨rfl, h1, ?_, fun _ => ?_⟩
+    · show bytesOf e.1 (expRun e.1 e.2 (bytesE e - f) (ord e)).1 ≤ bytesE e
+      omega
+    · rcases h3 with h3 | h3
+      · exact Or.inl h3
+      · right
+        intro i p hp
+        apply h3 i p (hord i ?_) hp
+        have := (List.getElem?_eq_some_iff.mp hp).1
+        rw [h1.len] at this
+        rw [hinv.len]; exact this
+  · rw [if_neg hb]
+    exact ⟨rfl, hinv, Int.le_refl _, fun h => absurd h hb⟩
+
+/-- Σ of the final `Bytes()` against the policy's own quantities -/
+theorem sum_capped (fair f : Int) (b c : Geom × State → Int) :
+    ∀ (ts : List (Geom × State)),
+      (∀ e, e ∈ ts → (b e ≤ fair → c e ≤ b e) ∧ (¬ b e ≤ fair → c e ≤ f)) →
+      (ts.map c).foldl (fun x y => x + y) 0 ≤
+        ((ts.map b).filter (· ≤ fair)).foldl (fun x y => x + y) 0 +
+          (((ts.map b).length - ((ts.map b).filter (· ≤ fair)).length : Nat) : Int) * f := by
+  intro ts
+  induction ts with
+  | nil => intro _; simp
+  | cons e ts ih =>
+    intro h
+    have he := h e List.mem_cons_self
+    have ih' := ih (fun x hx => h x (List.mem_cons_of_mem _ hx))
+    have hlen : ((ts.map b).filter (· ≤ fair)).length ≤ (ts.map b).length := List.length_filter_le _ _
+    rw [List.map_cons, List.map_cons, isum_cons]
+    by_cases hs : b e ≤ fair
+    · have : (b e :: ts.map b).filter (· ≤ fair) = b e :: (ts.map b).filter (· ≤ fair) := by simp [hs]
+      rw [this, isum_cons, List.length_cons, List.length_cons]
+      have := he.1 hs
+      rw [show (ts.map b).length + 1 - (((ts.map b).filter (· ≤ fair)).length + 1) =
+        (ts.map b).length - ((ts.map b).filter (· ≤ fair)).length by omega]
+      omega
+    · have : (b e :: ts.map b).filter (· ≤ fair) = (ts.map b).filter (· ≤ fair) := by simp [hs]
+      rw [this, List.length_cons]
+      have := he.2 hs
+      rw [show (ts.map b).length + 1 - ((ts.map b).filter (· ≤ fair)).length =
+        ((ts.map b).length - ((ts.map b).filter (· ≤ fair)).length) + 1 by omega,
+        Int.natCast_succ, Int.add_mul]
+      omega
+
+theorem sumHeld_le (Good : Nat → Bytes → Prop) : ∀ (l : List (Geom × State)),
+    (∀ e, e ∈ l → e.1.Valid ∧ Inv e.1 H Good e.2) →
+    sumHeld l ≤ (l.map bytesE).foldl (fun x y => x + y) 0 := by
+  intro l
+  induction l with
+  | nil => intro _; simp [sumHeld]
+  | cons e l ih =>
+    intro h
+    have he := h e List.mem_cons_self
+    have := ih (fun x hx => h x (List.mem_cons_of_mem _ hx))
+    have hb : (held e.1 e.2 : Int) ≤ bytesE e := held_le_bytesOf e.1 H Good he.1 e.2 he.2
+    rw [List.map_cons, isum_cons]
+    simp only [sumHeld, List.map_cons, List.foldr_cons] at this ⊢
+    omega
+
+/-- **`C03_expire_reaches_low_mark`** — "evictable to the low mark", end to end.  Any set of
+    torrents (each store in any state satisfying the invariant), any memory mark ≥ 0, any
+    availability answers / tie-breaks (`ord`, any visiting orders that cover every piece):
+    if `tor.Expire` decides to evict (`policy … = .evict fair2 sel`, computed from the
+    torrents' `Bytes()`), then after every selected torrent's pass has completed, the memory
+    actually allocated, Σ over torrents Σ over pieces holding a buffer of the piece length, is
+    at most the low mark `MemoryMark·7/8` — OR some selected torrent is still above `fair2`
+    and every piece it still holds is non-evictable: busy, i.e. being hashed (the only thing
+    that makes `del(·, false)` skip a piece; the policy has no other exemption). -/
+theorem C03_expire_reaches_low_mark (Good : Nat → Bytes → Prop) (ts : List (Geom × State))
+    (hts : ∀ e, e ∈ ts → e.1.Valid ∧ Inv e.1 H Good e.2)
+    (mark space : Int) (hmark : 0 ≤ mark) (ord : Geom × State → List Nat)
+    (hord : ∀ e, e ∈ ts → ∀ i, i < e.2.pieces.length → i ∈ ord e)
+    (f : Int) (sel : List Nat)
+    (hpol : policy true mark space ts.length (ts.map bytesE) (ts.map bytesE) = .evict f sel) :
+    sumHeld (ts.map (passOne f ord)) ≤ Int.tdiv (mark * 7) 8 ∨
+    ∃ e, e ∈ ts ∧ bytesE e > f ∧ bytesE (passOne f ord e) > f ∧
+      ∀ (i : Nat) (p : Piece), (passOne f ord e).2.pieces[i]? = some p → p.data ≠ none →
+        p.state = .busy := by
+  have hspec := fun e he => passOne_spec H Good f ord e (hts e he).1 (hts e he).2 (hord e he)
+  by_cases hall : ∀ e, e ∈ ts → bytesE e > f → bytesE (passOne f ord e) ≤ f
+  · left
+    -- the policy's quantities
+    have hlenmap : (ts.map bytesE).length = ts.length := by simp
+    rw [← hlenmap] at hpol
+    have hfairle := C03_policy_fair mark space _ _ f sel hmark hpol
+    obtain ⟨_, hB, hf⟩ := policy_evict_spec mark space _ _ _ f sel hpol
+    have hL : 0 ≤ Int.tdiv (mark * 7) 8 := by
+      rw [Int.tdiv_eq_ediv_of_nonneg (by omega)]; exact Int.ediv_nonneg (by omega) (by omega)
+    generalize hLd : Int.tdiv (mark * 7) 8 = L at *
+    have hfair : Int.tdiv L (ts.map bytesE).length = L / ((ts.map bytesE).length : Int) :=
+      Int.tdiv_eq_ediv_of_nonneg hL
+    generalize hfd : Int.tdiv L (ts.map bytesE).length = fair at *
+    have hflen : ((ts.map bytesE).filter (· ≤ fair)).length ≤ (ts.map bytesE).length :=
+      List.length_filter_le _ _
+    have hS := filter_sum_le (ts.map bytesE) fair
+    obtain ⟨hnn, _, hmul⟩ := fair_arith L _ fair (ts.map bytesE).length
+      ((ts.map bytesE).filter (· ≤ fair)).length hL (by omega) (by omega) hfair hS
+    rw [Int.tdiv_eq_ediv_of_nonneg hnn] at hf
+    -- the stores after the passes
+    have hts' : ∀ e', e' ∈ ts.map (passOne f ord) → e'.1.Valid ∧ Inv e'.1 H Good e'.2 := by
+      intro e' he'
+      obtain ⟨e, he, rfl⟩ := List.mem_map.mp he'
+      obtain ⟨h1, h2, _, _⟩ := hspec e he
+      rw [h1]; exact ⟨(hts e he).1, h2⟩
+    have h1 := sumHeld_le H Good _ hts'
+    rw [List.map_map] at h1
+    have h2 := sum_capped fair f bytesE (bytesE ∘ passOne f ord) ts (by
+      intro e he
+      obtain ⟨_, _, hle, _⟩ := hspec e he
+      refine ⟨fun _ => hle, fun hbig => ?_⟩
+      by_cases hsel : bytesE e > f
+      · exact hall e he hsel
+      · have : bytesE e ≤ f := by omega
+        exact Int.le_trans hle this)
+    rw [← hf] at hmul
+    omega
+  · right
+    have : ∃ e, ¬ (e ∈ ts → bytesE e > f → bytesE (passOne f ord e) ≤ f) := Classical.not_forall.mp hall
+    obtain ⟨e, he⟩ := this
+    have hmem : e ∈ ts := Classical.byContradiction (fun h => he (fun h' => absurd h' h))
+    have hbig : bytesE e > f := Classical.byContradiction (fun h => he (fun _ h' => absurd h' h))
+    have hnot : ¬ bytesE (passOne f ord e) ≤ f := fun h => he (fun _ _ => h)
+    obtain ⟨_, _, _, h4⟩ := hspec e hmem
+    rcases h4 hbig with h | h
+    · exact absurd h hnot
+    · exact ⟨e, hmem, hbig, by omega, h⟩
+
 /-! ### non-vacuity -/
+
+/-- two torrents of two full pieces each (Bytes() = 4 each), mark 4 (low 3), 8 bytes allocated:
+    fair = 1, fair2 = 1 ≥ fair, both selected; after the passes nothing is allocated -/
+def sFull : State := run HW gW (init gW) [.addData 0 0 [1, 2] 1, .addData 1 0 [3, 4] 1]
+example : policy true 4 8 2 [bytesE (gW, sFull), bytesE (gW, sFull)]
+    [bytesE (gW, sFull), bytesE (gW, sFull)] = .evict 1 [0, 1] := by decide
+example : sumHeld ([(gW, sFull), (gW, sFull)].map (passOne 1 (fun _ => [1, 0]))) = 0 := by decide
+/-- … and the other disjunct: a torrent whose pieces are being hashed stays above fair2 -/
+def sBusy : State := run HW gW (init gW)
+  [.addData 0 0 [1, 2] 1, .addData 1 0 [3, 4] 1, .finBegin 0, .finBegin 1]
+example : bytesE (passOne 1 (fun _ => [0, 1]) (gW, sBusy)) = 4 ∧
+    ((passOne 1 (fun _ => [0, 1]) (gW, sBusy)).2.pieces.all (fun p => p.state == .busy)) = true := by
+  decide
+
+
+/-- a pass over two complete pieces and one incomplete one, with a refill in between:
+    callbacks for the two complete pieces only -/
+example :
+    let s0 := run HW gW3 (init gW3)
+      [.addData 0 0 [1, 2] 1, .finBegin 0, .finEnd 0 [], .addData 1 0 [3, 4] 1,
+       .addData 2 0 [5, 6] 1, .finBegin 2, .finEnd 2 []]
+    (passRun HW gW3 s0 (expStart gW3 s0 0 10 [])
+      [.visit 0, .other (.addData 0 0 [7, 8] 1), .visit 1, .visit 2, .visit 0]).cbs = [0, 2] := by
+  decide
+
 
 example : gW.Valid := ⟨by decide, by decide⟩
 example : expLegal [9000, 100, 8000] [1, 5, 3] [0, 1, 2] 2 = true := by decide   -- commonest of the old
